@@ -10,6 +10,7 @@ import (
 	servertypes "github.com/tellor-io/layer/daemons/server/types"
 	"github.com/tellor-io/layer/lib"
 	"github.com/tellor-io/layer/lib/metrics"
+	"github.com/tellor-io/layer/lib/simhook"
 
 	"github.com/cosmos/cosmos-sdk/telemetry"
 )
@@ -40,12 +41,15 @@ func NewMarketToExchangePrices(maxPriceAge time.Duration) *MarketToExchangePrice
 func (mte *MarketToExchangePrices) UpdatePrices(
 	updates []*servertypes.MarketPriceUpdate,
 ) {
+	simhook.Yield("mte.update.beforeLock")
 	mte.Lock()
 	defer mte.Unlock()
 	for _, marketPriceUpdate := range updates {
+		simhook.Yield("mte.update.iter")
 		marketId := marketPriceUpdate.MarketId
 		exchangeToPrices, ok := mte.marketToExchangePrices[marketId]
 		if !ok {
+			simhook.Yield("mte.update.newMarket")
 			exchangeToPrices = NewExchangeToPrice(marketId)
 			mte.marketToExchangePrices[marketId] = exchangeToPrices
 		}
@@ -68,9 +72,11 @@ func (mte *MarketToExchangePrices) GetValidMedianPrices(
 	cutoffTime := readTime.Add(-mte.maxPriceAge)
 	marketIdToMedianPrice := make(map[uint32]uint64)
 
+	simhook.Yield("mte.read.beforeLock")
 	mte.Lock()
 	defer mte.Unlock()
 	for _, marketParam := range marketParams {
+		simhook.Yield("mte.read.iter")
 		marketId := marketParam.Id
 		exchangeToPrice, ok := mte.marketToExchangePrices[marketId]
 		if !ok {
